@@ -103,13 +103,14 @@ reg("C02", "dsl", "Every assignment of add_conflict(U/L/R)/schedule_before/none 
     "never both run. One open known finding (same transaction calling both ends, undefined priority).",
     "bounded-exhaustive design enumeration + explicit-state exploration against a reference interpreter", note=E2_NOTE)
 reg("C03", "dsl", "All families incl. validate_arguments and nesting, both schedulers, all states x valuations: run(T) implies the "
-    "reference 'fully enabled' predicate; the ready signals are compared with the reference.",
+    "reference 'fully enabled' predicate; the ready signals are compared with the reference; plus a transaction nested in a body "
+    "that is simultaneous (Connect) with a live / an uncalled partner.",
     "bounded-exhaustive design enumeration + explicit-state exploration against a reference interpreter", note=E2_NOTE)
 reg("C04", "dsl", "All families incl. provide() aliases and nested bodies, both schedulers: observed Method.run equals 'some call "
     "site active' in both directions in every state and valuation; nested bodies never run without their parent.",
     "bounded-exhaustive design enumeration + explicit-state exploration against a reference interpreter", note=E2_NOTE)
 reg("C05", "dsl", "Designs with 1-bit arguments/results: data_in of a running exclusive method equals the argument of its single "
-    "active site, nonexclusive methods see the OR-combiner over exactly the active sites, callers see the method output, also "
+    "active site, nonexclusive methods see a user combiner (parity of the active calls with argument 0) over exactly the active sites, callers see the method output, also "
     "through aliases; all valuations.",
     "bounded-exhaustive design enumeration + explicit-state exploration against a reference interpreter", note=E2_NOTE)
 reg("C06", "dsl", "One assignment per domain (comb/sync/av_comb/top_comb) at every block position of nested bodies and If/Switch/"
@@ -139,13 +140,15 @@ reg("C09", "dsl", "Designs without intra-component ready dependencies under triv
     "bounded-exhaustive design enumeration + explicit-state exploration of arbiter state x monitor against a reference interpreter",
     note=E2_NOTE)
 reg("C12", "tsx", "Every condition() design of a bounded family (transaction / method with 1-2 callers, also conditionally called; "
-    "1-3 branches + default; nonblocking x priority; shared callees; one nesting level; validate_arguments variant) x all input "
+    "never called, called through a wrapper; 1-3 branches + default; nonblocking x priority; shared callees, also nonexclusive ones shared "
+    "with the enclosing body; up to two nesting levels; multi-bit conditions; validate_arguments variant) x all input "
     "valuations; the five clauses of the statement are evaluated per condition block on branch witnesses.",
     "bounded-exhaustive design enumeration + exhaustive input enumeration on the elaborated design",
     note="Trusts pysim; 'admissible' = condition true, callees ready, arguments valid, inner block able to proceed; branch callees are "
     "not shared with transactions outside the block.")
 reg("C13", "tsx", "Every design connecting 1-3 writers and 1-3 readers through Connect (forward/reverse 1-bit data, optional extra "
-    "callee per caller) and bare simultaneous() pairs x all input valuations: both sides run in exactly the same cycles and the data "
+    "callee per caller), chains of Connects, Connect halves nobody calls next to live pairs, user-declared simultaneous() groups of "
+    "three, simultaneous_alternatives, data-exchanging user methods and transaction+method pairs x all input valuations: both sides run in exactly the same cycles and the data "
     "of the running pair is exchanged in both directions.",
     "bounded-exhaustive design enumeration + exhaustive input enumeration on the elaborated design",
     note="Trusts pysim; 1-bit payloads.")
@@ -231,7 +234,8 @@ reg("C41", "enum", "transpose/transpose_layout on every two-level layout with 1-
 reg("C43", "enum", "Every history (readiness pattern of the mocked method of length 4 (6 thorough) x start cycle x call/call_try x argument "
     "sequence x mock delay x process insertion order) run in a real PysimSimulator with the real TestbenchIO and MethodMock processes; "
     "a monitor samples the adapter wires every cycle; helper results, execution cycles (exactly one per successful call, none after), "
-    "mock values and effect counts are compared with a reference computed from the history alone.",
+    "mock values and effect counts are compared with a reference computed from the history alone; also a mock whose argument is a DUT "
+    "register changing on the call edge, and two-call CallTriggers (plain / until_done / until_all_done).",
     "bounded-exhaustive enumeration of stimulus histories, each executed on the real simulator processes and compared with a reference",
     note="Trusts Amaranth's simulator scheduling; histories bounded as listed.")
 
